@@ -167,30 +167,18 @@ func newEndpoint(name string, m *muxer.Muxer, id uint16, sm protocol.StateMap, i
 	if endpoints != nil {
 		endpoints[fmt.Sprintf("%v/%v", name, int(role))] = ep
 	}
+	// the application reads errors for as long as it lives, independently of
+	// DoneChan (an error may be published just after the loops have ended)
 	go func() {
-		for {
-			select {
-			case e := <-ep.errCh:
-				ep.errs = append(ep.errs, e)
-				ep.errSeq = append(ep.errSeq, rt.Stamp())
-				rt.Log("%s error: %v", name, e)
-			case <-ep.p.DoneChan():
-				ep.done = true
-				// drain what is already buffered
-				for {
-					select {
-					case e := <-ep.errCh:
-						ep.errs = append(ep.errs, e)
-						ep.errSeq = append(ep.errSeq, rt.Stamp())
-						rt.Log("%s error: %v", name, e)
-						continue
-					default:
-					}
-					break
-				}
-				return
-			}
+		for e := range ep.errCh {
+			ep.errs = append(ep.errs, e)
+			ep.errSeq = append(ep.errSeq, rt.Stamp())
+			rt.Log("%s error: %v", name, e)
 		}
+	}()
+	go func() {
+		<-ep.p.DoneChan()
+		ep.done = true
 	}()
 	return ep
 }
